@@ -3,7 +3,7 @@ import containers, observer
 TUS = containers.TUS
 def run(facts, rep, tier):
     res = containers.ring_analyse(facts, rep)
-    observer.emit(facts, rep, ['RB.6', 'RB.7', 'RB.8', 'RB.9'], {'RB.6': 40, 'RB.7': 40, 'RB.8': 14, 'RB.9': 14}, text=containers.RB_TEXT, res=res)
+    observer.emit(facts, rep, ['RB.3', 'RB.6', 'RB.7', 'RB.8', 'RB.9'], {'RB.3': 28, 'RB.6': 40, 'RB.7': 40, 'RB.8': 14, 'RB.9': 14}, text=containers.RB_TEXT, res=res)
     rep.count('ring_functions', res.get('_nfn', 0))
     rep.floor('RingBuffer instantiations', res.get('_nclasses', 0), 6)
     rep.assume('moved-from shells left by pop_* are tolerated by the property; what T\'s own special members do is trusted; exception paths are not modelled')
